@@ -578,3 +578,10 @@ Lemma wf_canon : forall n, wf_id n = true -> wf_id (canon n) = true.
 Proof.
   intros n H. destruct n as [ns id|ns id|ns id|ns s|ns g|ns b|t]; cbn [canon]; try exact H; cbn [wf_id] in H; apply wf_smallest; lia.
 Qed.
+
+(* ====================== ExpandedNodeID flags in the mask ====================== *)
+Lemma view_set_flags : forall f r, N.land f 15 = 0 -> view (set_flags f r) = view r.
+Proof.
+  intros f r Hf. unfold view, set_flags. cbn [r_mask r_ns r_nid r_bid r_gid].
+  rewrite N.land_lor_distr_l, Hf, N.lor_0_r. reflexivity.
+Qed.
